@@ -26,7 +26,7 @@ fn spec() -> Spec {
             Kind { name: "rx160", quick: 48, thorough: 1_500, serial: false },
             Kind { name: "shared_history", quick: 1_500, thorough: 60_000, serial: false },
         ],
-        rule: "verdicts: synthetic cell (box links overlapping at the joints, vertex counts anti-correlated with size, with/without tool and base, 0..3 environment boxes of which most are placed at a designed gap d = r*u, u in [0,2], from a link or the tool) x safety table (touch-only, positive distances with to_environment != to_robot_default, per-pair overrides in both key orders, NEVER_COLLIDES on random pairs incl. pairs naming J1, J_BASE, J_TOOL and environment ids) x mode x posture; collision_details, collides and near(q, other table) are compared with the brute-force triangle/triangle oracle over the property's relevant pair list. schedules: the same query in rayon pools of 1,2,3,4,8,16 threads x repeats x injected delays at task boundaries, results must be identical; the hook event log must show exactly the relevant non-exempt pairs evaluated in all-collisions mode. non-trivial = at least one pair colliding and one free; distinct = hash(cell, posture, table)",
+        rule: "verdicts: synthetic cell (box links overlapping at the joints, vertex counts anti-correlated with size, with/without tool and base, 0..3 environment boxes of which most are placed at a designed gap d = r*u, u in [0,2], from a link or the tool) x safety table (touch-only, positive distances with to_environment != to_robot_default, per-pair overrides in both key orders, NEVER_COLLIDES on random pairs incl. pairs naming J1, J_BASE, J_TOOL and environment ids) x mode x posture; collision_details, collides and near(q, other table) are compared with the brute-force triangle/triangle oracle over the property's relevant pair list. schedules: the same query in rayon pools of 1,2,3,4,8,16 threads x repeats x injected delays at task boundaries, results must be identical; the hook event log must show exactly the relevant non-exempt pairs evaluated in all-collisions mode. non-trivial = at least one pair colliding and one free; distinct = hash(cell, posture, table) Workload additions: obstacle meshes modelled away from their local origin; touch-only written as +0.0 or -0.0; a seventh of the tables without any positive distance (0 / NEVER_COLLIDES overrides only); a sixth of the bases replaced by a box at a designed gap from a link or the tool (a third of those pairs exempt); kind shared_history = cells sharing the robot but differing in table / mode / one obstacle asked the same joint vector alternately.",
         assumptions: vec![
             "band = 1e-4 m + 1e-5*reach around each threshold is ambiguous (library places meshes in f32, oracle in f64); in touch mode a body wholly inside another without surface contact is ambiguous (parry meshes are surfaces)",
             "tables never contain both key orders of one pair with different values",
